@@ -23,6 +23,7 @@ def run(chk):
     e9.run_N1(chk)
     e9.run_N23(chk)
     e3.run_L1(chk)
+    e3.run_I7(chk)
     e3.run_L2(chk)
     e3.run_I2(chk)
     e3.run_I3(chk)
